@@ -28,6 +28,12 @@ def scan(repo):
                 lead = sf.src[it.start:it.sig_start]
                 # item-level: a constant / static whose existence or value depends on a feature, or a
                 # negated / combined feature gate (two alternative definitions), makes behaviour feature-dependent
+                # a type / item whose representation attributes depend on a feature or the profile
+                # (`#[cfg_attr(feature = "..", repr(..))]`): its layout differs between configurations
+                for ma in re.finditer(r'#\s*\[\s*cfg_attr\s*\(([^\]]*)\]', lead):
+                    inner = ma.group(1)
+                    if re.search(r'\b(repr|derive|inline|no_mangle|path)\b', inner) and not re.match(r'\s*(test|kani|doc)\b', inner):
+                        bad.append((f'{crate}/src/{fn}', path, sf.line_of(it.sig_start), 'cfg_attr: ' + re.sub(r'\s+', ' ', inner)[:70]))
                 if re.search(r'#\s*\[\s*cfg\s*\(', lead):
                     if it.kind in ('const', 'static') or re.search(r'cfg\s*\(\s*(not|any)\s*\(', lead):
                         bad.append((f'{crate}/src/{fn}', path, sf.line_of(it.sig_start), re.sub(r'\s+', ' ', lead.strip())[-80:]))
